@@ -45,6 +45,7 @@ UNIVERSE = [
     "vb", "a", "a.b", "a.c", "a.d", "a.e", "a.z", "x-y", "a.x-y", "n", "n.p", "n.p.q", "n.p.r",
     "new", "new.k", "device", "verbose", "viz.cmap", "mkl.threads", "cupy.fft-cache-size", "d-e.f-g",
     "viz.colors.set", "viz.colors", "deep.l2.l3.l4", "deep.l2",
+    "VB", "k é", "1",
 ]
 DEVICES = ["cpu", "cpu:1", None, "gpu", "cuda:0", "cuda:9", "mps", "tpu", -1, 3.5, "cuda:x", 0, "CPU", ""]
 
@@ -96,6 +97,13 @@ def build_events():
         ("with", {"a.b": 8, "a": {"b": 16}}, None),
         ("with", {"w.k": 1}, None, {"w__k": 2}),
     ]
+    # content of keys and values: keys that differ from another key only in CASE (distinct entries: only '-' and '_' are one
+    # spelling), keys that look like numbers / hold a space / are not ASCII, FALSY values (0, "", False, an empty mapping
+    # is left out: what get returns for it is not prescribed), and a BaseException that is no Exception leaving a block
+    ev += [("set", "VB", 1), ("set", "k é", 1), ("set", "1", 1)]
+    ev += [("set", "vb", 0), ("set", "vb", ""), ("set", "vb", False)]
+    ev += [("dflt", {"vb": 0}), ("dflt", {"VB": 10})]
+    ev += [("with", {"vb": 0}, None), ("with", {"VB": 5}, None), ("with", {"vb": 5}, "raise_base"), ("with", {"a.b": 0, "vb": ""}, "raise_base")]
     return ev
 
 
@@ -293,6 +301,10 @@ class _InsideBlock(Exception):
     pass
 
 
+class _InsideBlockBase(BaseException):
+    """Like KeyboardInterrupt / SystemExit: not an Exception."""
+
+
 def apply_event(I, M, ev, fails, where):
     """Apply one event to implementation and model; append (cls, msg) to fails. An exception raised by the library
     for a well-formed request (anything but a rejected device) is a verdict, not a harness error."""
@@ -389,7 +401,7 @@ def _apply_event(I, M, ev, fails, where):
                 d = d[p_]
             record.append(("insert", missing, None) if missing is not None else ("replace", parts, copy.deepcopy(d)))
             M.set(k, v)
-        if inner == "raise":
+        if inner in ("raise", "raise_base"):
             inner_ev = None
         elif inner == "same":
             inner_ev = ("set", keys[0], 9)
@@ -409,9 +421,11 @@ def _apply_event(I, M, ev, fails, where):
                         fails.append(({"relation": "with_sets_inside"}, f"{where}: inside `with set({w}, **{kw})` get({k!r}) = {got!r}, last writer says {model_get(M, k)!r}"))
                 if inner == "raise":
                     raise _InsideBlock()
+                if inner == "raise_base":
+                    raise _InsideBlockBase()
                 if inner_ev is not None:
                     _apply_event(I, M, inner_ev, fails, where + f" inside with set({w})")
-        except _InsideBlock:
+        except (_InsideBlock, _InsideBlockBase):
             pass  # the exception left the block through __exit__, which must have restored the entries (checked below)
         except TypeError as e:
             fails.append(({"relation": "with_protocol"}, f"{where}: `with config.set({w}, **{kw})` raised {e!r}"))
